@@ -24,10 +24,13 @@ fn main() {
     let n_cases: u64 = a[2].parse().unwrap(); let mut rng = Rng::from_env();
     let mut tr = std::io::BufWriter::new(std::fs::File::create(&a[3]).unwrap());
     let rt = tokio::runtime::Builder::new_multi_thread().enable_all().worker_threads(2).build().unwrap();
-    let mut fails = vec![]; let mut samples = vec![]; let (mut readers_checked, mut failing_cases, mut outputs) = (0u64, 0u64, 0u64); let mut n_symlinked = 0u64;
+    let mut fails = vec![]; let mut samples = vec![]; let (mut readers_checked, mut failing_cases, mut outputs) = (0u64, 0u64, 0u64); let mut fault_cases = 0u64; let mut n_symlinked = 0u64;
     for case in 0..n_cases {
         let dir = tempfile::tempdir().unwrap();
-        let nout = 1 + rng.below(3); let mut lines: Vec<String> = vec!["new".into()]; let mut tid = 0u64;
+        // every fifth case is a write-fault case: large new objects and a file-size limit (EFBIG, like ENOSPC / EDQUOT / EIO) that strikes in the
+        // middle of the first output's restore
+        let fault = case % 5 == 4; if fault { fault_cases += 1; }
+        let nout = if fault { 1 + rng.below(2) } else { 1 + rng.below(3) }; let mut lines: Vec<String> = vec!["new".into()]; let mut tid = 0u64;
         // ---- existing (old) outputs, version 1
         let mut old: Vec<Option<u64>> = vec![];
         let mut symlinked: Vec<u64> = vec![];
@@ -45,8 +48,8 @@ fn main() {
             if rng.chance(2, 3) { let f = std::fs::File::open(dir.path().join(format!("out{}.o", k))).unwrap(); lines.push(format!("spawnGet {} {} -> * | *", tid, k)); lines.push(format!("extOpen {} -> * | *", tid)); fds.push((tid, k, f)); tid += 1; }
             if rng.chance(1, 3) { let l = dir.path().join(format!("link{}", k)); std::fs::hard_link(dir.path().join(format!("out{}.o", k)), &l).unwrap(); links.push((k, l)); } } }
         // ---- the entry (new version 2), possibly with a corrupt or missing member
-        let mut w = CacheWrite::new(); let mut news = vec![]; let bad = if rng.chance(1, 2) { Some(rng.below(nout)) } else { None }; let bad_kind = rng.below(2);
-        for k in 0..nout { let n = 1 + rng.below(3); news.push(n);
+        let mut w = CacheWrite::new(); let mut news = vec![]; let bad = if !fault && rng.chance(1, 2) { Some(rng.below(nout)) } else { None }; let bad_kind = rng.below(2);
+        for k in 0..nout { let big = if rng.chance(1, 2) { 6000 } else { 40000 }; let n = if fault { 1500 + rng.below(big) } else { 1 + rng.below(3) }; news.push(n);
             if bad == Some(k) && bad_kind == 1 { continue; }     // member missing from the entry
             w.put_object(&format!("obj{}", k), &mut Cursor::new(body(k, 2, n)), Some(0o100644)).unwrap(); }
         let mut bytes = w.finish().unwrap();
@@ -56,17 +59,22 @@ fn main() {
         let optional: Vec<bool> = (0..nout).map(|_| rng.chance(1, 4)).collect();
         let objs: Vec<FileObjectSource> = (0..nout).map(|k| FileObjectSource { key: format!("obj{}", k), path: dir.path().join(format!("out{}.o", k)), optional: optional[k as usize] }).collect();
         let inodes_before: Vec<Option<u64>> = (0..nout).map(|k| std::fs::metadata(dir.path().join(format!("out{}.o", k))).ok().map(|m| m.ino())).collect();
+        let mut saved = libc::rlimit { rlim_cur: 0, rlim_max: 0 };
+        if fault { let size0 = body(0, 2, news[0]).len() as u64; let limit = 4096 + rng.below(size0 - 4096 - 1);
+            unsafe { libc::signal(libc::SIGXFSZ, libc::SIG_IGN); libc::getrlimit(libc::RLIMIT_FSIZE, &mut saved); let r = libc::rlimit { rlim_cur: limit, rlim_max: saved.rlim_max }; libc::setrlimit(libc::RLIMIT_FSIZE, &r); } }
         let res = rt.block_on(async { CacheRead::from(Cursor::new(bytes)).unwrap().extract_objects(objs, rt.handle()).await });
+        if fault { unsafe { libc::setrlimit(libc::RLIMIT_FSIZE, &saved); } }
         // ---- what extract_objects does, as model actions (final observations only: the call is one blocking unit)
         let mut stopped = false;
         for k in 0..nout { if stopped { break; }
             lines.push(format!("spawnPut {} {} 2 {} -> * | *", tid, k, news[k as usize])); lines.push(format!("putPrepare {} -> * | *", tid));
             // a member that is absent is skipped when optional; one that is present but damaged ends the restore, optional or not (fix of F-C08-c)
-            if bad == Some(k) { lines.push(format!("putAbort {} -> * | *", tid)); if !optional[k as usize] || bad_kind == 0 { stopped = true; } }
+            if fault { lines.push(format!("putAbort {} -> * | *", tid)); stopped = true; }     // the write fails part-way: nothing is installed, the restore ends
+            else if bad == Some(k) { lines.push(format!("putAbort {} -> * | *", tid)); if !optional[k as usize] || bad_kind == 0 { stopped = true; } }
             else { for _ in 0..news[k as usize] { lines.push(format!("putWrite {} -> * | *", tid)); } lines.push(format!("putCommit {} -> * | *", tid)); }
             tid += 1; }
-        let expect_err = bad.map(|k| !optional[k as usize] || bad_kind == 0).unwrap_or(false);
-        if res.is_err() != expect_err { fails.push(fail_json("unexpected_result", &format!("extract_objects returned {} ({} member {:?}, optional {:?})", if res.is_err() { "Err" } else { "Ok" }, if bad_kind == 0 { "damaged" } else { "absent" }, bad, optional), &lines, "")); }
+        let expect_err = fault || bad.map(|k| !optional[k as usize] || bad_kind == 0).unwrap_or(false);
+        if res.is_err() != expect_err { fails.push(fail_json("unexpected_result", &format!("extract_objects returned {} ({}{} member {:?}, optional {:?})", if res.is_err() { "Err" } else { "Ok" }, if fault { "write fault in the first output; " } else { "" }, if bad_kind == 0 { "damaged" } else { "absent" }, bad, optional), &lines, "")); }
         if bad.is_some() { failing_cases += 1; }
         // ---- readers read through their old descriptors
         for (t, k, mut f) in fds { let mut b = vec![]; f.read_to_end(&mut b).unwrap(); readers_checked += 1;
@@ -91,6 +99,6 @@ fn main() {
         for l in &lines { writeln!(tr, "{}", l).unwrap(); }
         if samples.len() < 2 && bad.is_some() && case > 1 { samples.push(lines.join(" ; ")); }
     }
-    std::fs::write(&a[4], format!("{{\"cases\":{},\"cases_with_failing_member\":{},\"old_descriptors_checked\":{},\"symlinked_outputs\":{},\"output_files_checked\":{},\"monitor_failures\":[{}],\"samples\":[{}]}}",
-        n_cases, failing_cases, readers_checked, n_symlinked, outputs, fails.join(","), samples.iter().map(|s| jstr(s)).collect::<Vec<_>>().join(","))).unwrap();
+    std::fs::write(&a[4], format!("{{\"cases\":{},\"write_fault_cases\":{},\"cases_with_failing_member\":{},\"old_descriptors_checked\":{},\"symlinked_outputs\":{},\"output_files_checked\":{},\"monitor_failures\":[{}],\"samples\":[{}]}}",
+        n_cases, fault_cases, failing_cases, readers_checked, n_symlinked, outputs, fails.join(","), samples.iter().map(|s| jstr(s)).collect::<Vec<_>>().join(","))).unwrap();
 }
